@@ -105,6 +105,18 @@ def make_data(d):
         # one buffer (same bytes) viewed under the requested shape
         buf = np.random.default_rng([int(d["seed"]), 53]).normal(size=int(d["total"]))
         return buf.reshape(int(d["T"]), int(d["N"]))
+    if d.get("gen") == "donorpair":
+        # two sensors, three stretches: a regime with strongly correlated sensors, a regime with independent sensors of somewhat larger
+        # variance (covariances of similar Frobenius norm whose ranking depends on the off-diagonal entries being counted in full),
+        # and a short third stretch
+        rng = np.random.default_rng([int(d["seed"]), 59])
+        n0, n1, n2 = [int(v) for v in d["sizes"]]
+        rho, s = float(d["rho"]), float(d["s"])
+        L0 = np.linalg.cholesky(np.array([[1.0, rho], [rho, 1.0]]))
+        a = rng.normal(size=(n0, 2)) @ L0.T
+        b = rng.normal(size=(n1, 2)) * np.sqrt(s) + 6.0
+        c = rng.normal(size=(n2, 2)) * np.sqrt(s) + 6.0
+        return np.vstack([a, b, c]) * float(d.get("unit", 1.0))
     if d.get("gen") == "fixture":
         data = load_fixture(d["name"])
         if isinstance(data, list):
@@ -233,6 +245,11 @@ def make_label_script(spec, T, K):
             for j in range(c):
                 i = min(T - 2, 1 + (j + 1) * step - step // 2)
                 lab[i] = (lab[i] + 1) % K
+        elif sym in ("D3a", "D3b"):
+            # K = 3: two large clusters and a small third one (D3a); the third one's points relabelled into the second (D3b)
+            n0, n1, n2 = [int(v) for v in spec["sizes"]]
+            lab = [0] * n0 + [1] * n1 + ([2] * n2 if sym == "D3a" else [1] * n2)
+            lab = (lab + [1] * T)[:T]
         elif sym in ("P5", "Q5"):
             # K = 5, sizes chosen against min_cluster_size m: clusters 0 and 1 hold between 2m and 3m points (each can donate exactly
             # once), clusters 2 and 3 two points each, cluster 4 two.  Q5 moves the points of 2 and 3 into 4: clusters 0 and 1 are not
